@@ -104,7 +104,11 @@ class CHECK(Check):
             "random interleavings; such cases count as non-trivial when two registers of related classes were operated on. "
             "Real-valued fields (F and E notation, 1-3 decimals) whose texts and assigned values come from one pool of eleven numbers, so that the "
             "same number - and the two zeros, equal under == but written differently - recurs through one Field object from several registers, "
-            "results and classes; one random case in seven is a short history (4-10 operations, six in ten of them a register read or written) over one class with real-valued fields only, ending with every register written once more in a random order.")
+            "results and classes; one random case in seven is a short history (4-10 operations, six in ten of them a register read or written) over one class with real-valued fields only, ending with every register written once more in a random order. "
+            "Query histories (oracle only): a register file of two unrelated register classes read from 2-6 rows, then 4-14 operations out of: "
+            "get_registers_of_type with or without a keyword filter (a returned list is kept by the caller), of_type, a mutation of any list the "
+            "caller was given (reverse, sort, pop, clear, del of the tail, append), append / remove on the container; after every operation the "
+            "chain, both kinds of query for both classes and every list handed out so far are compared with plain Python lists subjected to the same operations.")
 
     def gen(self, tier, rng):
         import itertools
@@ -129,6 +133,8 @@ class CHECK(Check):
             for n in range(1, 4):
                 for combo in itertools.product(alpha, repeat=n):
                     yield {"kind": "graph", "lines": hl, "bases": [None, 0], "ops": [[0, 0], [0, 1]] + [list(o) for o in combo]}
+        for _ in range(150 if tier == "quick" else 3000):
+            yield self.gen_query(rng)
         nr = 1500 if tier == "quick" else 30000
         for _ in range(nr):
             k = rng.random()
@@ -196,6 +202,118 @@ class CHECK(Check):
                 rng.shuffle(order)
                 ops.extend([2, r] for r in order)
             yield {"kind": "graph", "lines": lines, "delims": delims, "bases": bases, "ops": ops}
+
+    @staticmethod
+    def gen_query(rng):
+        """a register file of two unrelated classes, queried by type; the lists it hands out are mutated by the caller"""
+        code = [0]
+
+        def row():
+            code[0] += 1
+            return [rng.randrange(2) if rng.random() < 0.35 else 0, code[0], rng.randrange(3)]
+        rows = [row() for _ in range(rng.randint(2, 6))]
+        ops = []
+        for _ in range(rng.randint(4, 14)):
+            k = rng.random()
+            c = 0 if rng.random() < 0.75 else 1
+            if k < 0.35:
+                ops.append(["q", c])
+            elif k < 0.45:
+                ops.append(["qf", c, rng.randrange(3)])
+            elif k < 0.8:
+                ops.append(["mut", rng.randrange(8), rng.choice(["reverse", "sort", "pop", "clear", "del_tail", "append_first"])])
+            elif k < 0.9:
+                ops.append(["add"] + row())
+            else:
+                ops.append(["rm", rng.randrange(8)])
+        return {"kind": "query", "rows": rows, "ops": ops}
+
+    @staticmethod
+    def mutate_list(l, how):
+        """what the caller does with a list he was given (the same on the implementation's lists and on the reference's)"""
+        if how == "reverse":
+            l.reverse()
+        elif how == "sort":
+            l.sort(key=lambda x: x if isinstance(x, int) else x.data[0])
+        elif how == "pop":
+            if l:
+                l.pop()
+        elif how == "clear":
+            del l[:]
+        elif how == "del_tail":
+            del l[1:]
+        elif l:
+            l.append(l[0])
+
+    def run_query(self, case):
+        from cfinterface.components.register import Register
+        from cfinterface.components.line import Line
+        from cfinterface.components.integerfield import IntegerField
+        from cfinterface.files.registerfile import RegisterFile
+        ns = {"IDENTIFIER_DIGITS": 2, "__slots__": [], "code": property(lambda self: self.data[0]), "grp": property(lambda self: self.data[1])}
+        classes = [type("Q%d" % i, (Register,), dict(ns, IDENTIFIER=idt, LINE=Line([IntegerField(4, 3), IntegerField(4, 8)])))
+                   for i, idt in enumerate(["UN", "OT"])]
+        FC = type("QFile", (RegisterFile,), {"REGISTERS": list(classes), "__slots__": []})
+        codes = lambda q: [] if q is None else [r.data[0] for r in q] if isinstance(q, list) else [q.data[0]]
+        trace = []
+        try:
+            with lib.budget(400000):
+                f = FC.read("".join("%s %4d %4d\n" % (classes[c].IDENTIFIER, code, grp) for c, code, grp in case["rows"]))
+                held = []
+                for op in case["ops"]:
+                    chain = [r for r in f.data if isinstance(r, tuple(classes))]
+                    if op[0] == "q":
+                        q = f.data.get_registers_of_type(classes[op[1]])
+                        if isinstance(q, list):
+                            held.append(q)
+                    elif op[0] == "qf":
+                        q = f.data.get_registers_of_type(classes[op[1]], grp=op[2])
+                        if isinstance(q, list):
+                            held.append(q)
+                    elif op[0] == "mut":
+                        if held:
+                            self.mutate_list(held[op[1] % len(held)], op[2])
+                    elif op[0] == "add":
+                        f.data.append(classes[op[1]](data=[op[2], op[3]]))
+                    elif chain:
+                        f.data.remove(chain[op[1] % len(chain)])
+                    trace.append({"chain": [r.data[0] for r in f.data if isinstance(r, tuple(classes))],
+                                  "query": [codes(f.data.get_registers_of_type(c)) for c in classes],
+                                  "of_type": [[r.data[0] for r in f.data.of_type(c)] for c in classes],
+                                  "held": [[r.data[0] for r in h] for h in held],
+                                  "held_distinct": len({id(h) for h in held}) == len(held)})
+        except BaseException as e:
+            trace.append({"raised": type(e).__name__ + ": " + str(e)[:80]})
+        return trace
+
+    def oracle_query(self, case, obs):
+        """the container is a plain list of rows subjected to its own operations; a list handed out is a copy that only its holder changes"""
+        bad = [s for s in obs if "raised" in s]
+        if bad:
+            return "an operation of a query history raised: %s" % bad[0]["raised"]
+        chain = [list(r) for r in case["rows"]]
+        held = []
+        sel = lambda c, g=None: [r[1] for r in chain if r[0] == c and (g is None or r[2] == g)]
+        if len(obs) != len(case["ops"]):
+            return "a query history was not carried out completely"
+        for i, (op, got) in enumerate(zip(case["ops"], obs)):
+            if op[0] in ("q", "qf"):
+                q = sel(op[1], op[2] if op[0] == "qf" else None)
+                if len(q) > 1:
+                    held.append(q)
+            elif op[0] == "mut":
+                if held:
+                    self.mutate_list(held[op[1] % len(held)], op[2])
+            elif op[0] == "add":
+                chain.append(op[1:])
+            elif chain:
+                del chain[op[1] % len(chain)]
+            exp = {"chain": [r[1] for r in chain], "query": [sel(0), sel(1)], "of_type": [sel(0), sel(1)], "held": held, "held_distinct": True}
+            for k in ("chain", "query", "of_type", "held", "held_distinct"):
+                if got[k] != exp[k]:
+                    return ("query history: %s differs from plain lists subjected to the same operations (changed as a side effect): after op %d %r got %r, expected %r"
+                            % (k, i, op, got[k], exp[k]))
+        return None
 
     # ---------------------------------------------------------------- implementation
     def run_graph(self, case):
@@ -328,6 +446,8 @@ class CHECK(Check):
             return obs
         if case["kind"] == "emptied":
             return self.run_emptied(case)
+        if case["kind"] == "query":
+            return self.run_query(case)
         return self.run_graph(case)
 
     @staticmethod
@@ -375,10 +495,10 @@ class CHECK(Check):
 
     # ---------------------------------------------------------------- model
     def comparable(self, case):
-        return case["kind"] != "emptied"     # judged by the oracle only: the model has no emptied containers (C07's excluded call)
+        return case["kind"] not in ("emptied", "query")     # query histories likewise: the model has no queries by type; judged by the oracle only: the model has no emptied containers (C07's excluded call)
 
     def model_arg(self, case, fresh=True):
-        if case["kind"] in ("fresh", "emptied"):
+        if case["kind"] in ("fresh", "emptied", "query"):
             return [fresh, [], [[6], [6], [8, 0], [6]]]
         delims = case.get("delims") or [None] * len(case["lines"])
         lines = [[[[fl.field_sx(fd), []] for fd in fs], [], ([d] if d else []), False] for fs, d in zip(case["lines"], delims)]
@@ -391,7 +511,7 @@ class CHECK(Check):
         return [fresh, lines, ops]
 
     def model_obs(self, case, res):
-        if case["kind"] == "emptied":
+        if case["kind"] in ("emptied", "query"):
             return {}
         if case["kind"] == "fresh":
             last = res[-1][1]
@@ -441,6 +561,8 @@ class CHECK(Check):
 
     # ---------------------------------------------------------------- oracle: isolated replay of each object's own operations
     def oracle(self, case, obs):
+        if case["kind"] == "query":
+            return self.oracle_query(case, obs)
         if case["kind"] == "emptied":
             if "raised" in obs:
                 return "emptying two files and using one of them raised: %s" % obs["raised"]
@@ -572,6 +694,10 @@ class CHECK(Check):
     def nontrivial(self, case, obs):
         if case["kind"] in ("fresh", "emptied"):
             return True
+        if case["kind"] == "query":
+            # a list was handed out and mutated by its holder
+            qs = [i for i, op in enumerate(case["ops"]) if op[0] in ("q", "qf")]
+            return bool(qs) and any(op[0] == "mut" for op in case["ops"][qs[0]:]) and any(s.get("held") for s in obs)
         lines = [op[1] for op in case["ops"] if op[0] == 0]
         return (len(lines) != len(set(lines)) or self.related_used(case)) and any(op[0] in (1, 4, 5) for op in case["ops"])
 
@@ -592,6 +718,12 @@ class CHECK(Check):
     def classify(self, case):
         if case["kind"] in ("fresh", "emptied"):
             return {case["kind"] + "_" + case["fam"]: 1}
+        if case["kind"] == "query":
+            d = {"query_history": 1, "query_rows_%d" % len(case["rows"]): 1}
+            for op in case["ops"]:
+                k = "query_op_" + op[0] + ("_" + op[2] if op[0] == "mut" else "")
+                d[k] = d.get(k, 0) + 1
+            return d
         d = {"ops_%02d" % len(case["ops"]): 1, "lines_%d" % len(case["lines"]): 1}
         if any(b is not None for b in case.get("bases") or []):
             d["derived_classes_%d" % sum(b is not None for b in case["bases"])] = 1
@@ -645,6 +777,13 @@ class CHECK(Check):
         return why.split(":")[0]
 
     def shrink(self, case):
+        if case["kind"] == "query":
+            # every index of a query history is taken modulo what exists, so any operation or row can be dropped
+            for i in range(len(case["ops"]) - 1, -1, -1):
+                yield dict(case, ops=case["ops"][:i] + case["ops"][i + 1:])
+            for i in range(len(case["rows"]) - 1, -1, -1):
+                yield dict(case, rows=case["rows"][:i] + case["rows"][i + 1:])
+            return
         if case["kind"] != "graph":
             return
         ops = case["ops"]
